@@ -16,6 +16,10 @@ class Callback:
         self.name = name
         self.ret = ret
         self.fn = z3.Function(f"cb_{name}", V, z3.ArraySort(V, VARR), ret)
+        if ret == V:
+            x = z3.Const("x!cb", V)
+            h = z3.Const("h!cb", z3.ArraySort(V, VARR))
+            ctx.assumptions.append(z3.ForAll([x, h], self.fn(x, h) != ABSENT, patterns=[self.fn(x, h)]))
 
     def apply(self, it, x):
         return self.fn(M.to_v(it, x), M.heap_D(it.ctx))
